@@ -122,7 +122,7 @@ func (t TimeV) ns128() string {
 }
 
 // sub models Time.Sub: the difference saturated to int64.
-func timeSub(a, b TimeV) Int {
+func timeSub(e *Exec, a, b TimeV) Int {
 	if a.NS == nil && b.NS == nil && a.Sec.isConc() && a.Nsec.isConc() && b.Sec.isConc() && b.Nsec.isConc() {
 		ds := a.Sec.signed() - b.Sec.signed()
 		dn := a.Nsec.signed() - b.Nsec.signed()
@@ -143,6 +143,25 @@ func timeSub(a, b TimeV) Int {
 			return mkI64(-int64(^uint64(0)>>1) - 1)
 		}
 		return mkI64(r)
+	}
+	if a.NS != nil && b.NS != nil {
+		// both instants are int64 nanosecond counts: 64-bit difference with
+		// explicit overflow detection (cheaper for the solver than 128 bits);
+		// an overflow case that is infeasible under the current path
+		// condition is pruned so that the common case is a plain bvsub.
+		x, y := a.NS.term().S, b.NS.term().S
+		z := bvLit(0, 64)
+		d := "(bvsub " + x + " " + y + ")"
+		negOv := fmt.Sprintf("(and (bvslt %s %s) (bvsge %s %s) (bvsge %s %s))", x, z, y, z, d, z)
+		posOv := fmt.Sprintf("(and (bvsge %s %s) (bvslt %s %s) (bvslt %s %s))", x, z, y, z, d, z)
+		t := d
+		if e == nil || e.feasible(&Term{S: posOv}) {
+			t = fmt.Sprintf("(ite %s %s %s)", posOv, bvLit(1<<63-1, 64), t)
+		}
+		if e == nil || e.feasible(&Term{S: negOv}) {
+			t = fmt.Sprintf("(ite %s %s %s)", negOv, bvLit(1<<63, 64), t)
+		}
+		return Int{W: 64, S: true, T: &Term{S: t}}
 	}
 	d := "(bvsub " + a.ns128() + " " + b.ns128() + ")"
 	max := "(_ bv9223372036854775807 128)"
@@ -296,7 +315,7 @@ func init() {
 		return timeEqual(args[0].(TimeV), args[1].(TimeV))
 	}
 	stubs["(time.Time).Sub"] = func(e *Exec, fn *ssa.Function, args []value) value {
-		return timeSub(args[0].(TimeV), args[1].(TimeV))
+		return timeSub(e, args[0].(TimeV), args[1].(TimeV))
 	}
 	stubs["time.Since"] = func(e *Exec, fn *ssa.Function, args []value) value {
 		return mkI64(0) // only used for self-timing histograms, not observable
